@@ -287,6 +287,9 @@ pub fn run_batch(batch: &str, cases: &[ProbeCase], exec: bool) -> Vec<CaseResult
             if !verdicts.contains_key(&case) {
                 machinery(&format!("probe batch {batch}: error attributed to unknown case {case}"));
             }
+            if std::env::var("VERIF_DEBUG").is_ok() {
+                eprintln!("PROBE {batch} {case}: generated={gen:?} probe={probe:?}");
+            }
             let v = if !gen.is_empty() { Verdict::Rejected(gen) } else { Verdict::ProbeMismatch(probe) };
             verdicts.insert(case, v);
         }
